@@ -297,6 +297,18 @@ pub fn gen_texts(seed: u64, n: usize) -> Vec<J> {
         };
         out.push(json!({"kind":"text","text":text,"inputs": if j % 5 == 0 { J::String(format!("{{\"n\": {lit}}}")) } else { J::Null }}));
     }
+    // directed: every higher-order built-in with callbacks that build values of their own (strings, lists, records) while the
+    // built-in is at work, on two or more elements; and the integer sweep of the factorial across its overflow point
+    for hof in ["map", "filter", "every", "some", "sort_by", "group_by", "count_by"] {
+        for cb in ["w => lowercase(w)", "w => [w, w]", "w => {k: w}", "w => to_string(w) + \"!\"", "(w, i?) => format(\"{}-{}\", w, i)", "w => len([w]) > 0", "w => split(w, \"\")"] {
+            out.push(json!({"kind":"text","text":format!("output r = {hof}([\"b\", \"A\", \"c\"], {cb})\n{hof}([10, 9, 100], {cb})\n[\"x\", \"y\"] via ({cb})\n[\"x\", \"y\"] where ({cb})"),"inputs":J::Null}));
+        }
+    }
+    out.push(json!({"kind":"text","text":"reduce([\"b\", \"a\"], (acc, w) => acc + [uppercase(w)], [])\nreduce([1, 2, 3], (acc, w, i) => {...acc, [to_string(w)]: i}, {})\nzip([1, 2], [\"a\", \"b\"]) via (p => {n: p[0], s: p[1] + \"\"})","inputs":J::Null}));
+    for lo in [0usize, 40, 80, 120, 160] {
+        let text: Vec<String> = (lo..lo + 45).map(|k| format!("{k}!")).collect();
+        out.push(json!({"kind":"text","text":format!("output fs = [{}]\n(-3)!\n2.5!\n171! + 1\n1000!", text.join(", ")),"inputs":J::Null}));
+    }
     // every spelling of every unit identifier (as listed, upper-cased, lower-cased, capitalised - non-ASCII letters included) as
     // an argument of convert: the natural boundary pool of that built-in
     {
